@@ -84,17 +84,17 @@ def insert_points(src, rel, notes):
         lines = src.split("\n")
         rx = re.compile(pat)
         hit = [i for i, l in enumerate(lines) if rx.match(l)]
-        if len(hit) != 1:
-            notes.append("delay point %s not inserted (pattern matched %d lines)" % (name, len(hit)))
+        if len(hit) < 1:
+            notes.append("delay point %s not inserted (pattern matched no line)" % name)
             continue
-        i = hit[0]
-        # same line => line numbers of the file are unchanged
-        if where == "after":
-            lines[i] = lines[i] + '; verifclock.Point("%s")' % name
-        else:
-            lines[i] = 'verifclock.Point("%s"); ' % name + lines[i]
+        for i in hit:
+            # same line => line numbers of the file are unchanged
+            if where == "after":
+                lines[i] = lines[i] + '; verifclock.Point("%s")' % name
+            else:
+                lines[i] = 'verifclock.Point("%s"); ' % name + lines[i]
+            n += 1
         src = "\n".join(lines)
-        n += 1
     return src, n
 
 
